@@ -11,14 +11,29 @@ open StunVerif
     types (any operation sequence, any length) -/
 theorem types_inv (H : Hashes) (b : Builder) (hr : Spec.Reach H b) :
     b.types = b.attrs.map BAttr.ty := by
-  sorry
+  exact reach_types H b hr
 
 /-- adding an attribute is refused exactly when its type is already present or the message is
     already sealed by an integrity or fingerprint attribute -/
 theorem add_refused_iff (b : Builder) (a : BAttr) :
     (∃ e, b.add a = .error e) ↔
       (a.ty ∈ b.types ∨ tyMI ∈ b.types ∨ tyMI256 ∈ b.types ∨ tyFP ∈ b.types) := by
-  sorry
+  rw [add_err_iff, addGuard_ok_iff]
+  constructor
+  · intro h
+    apply Classical.byContradiction
+    intro hn
+    apply h
+    intro t ht hm
+    simp only [List.mem_cons, List.not_mem_nil, or_false] at hm
+    apply hn
+    rcases hm with rfl | rfl | rfl | rfl
+    · exact Or.inl ht
+    · exact Or.inr (Or.inl ht)
+    · exact Or.inr (Or.inr (Or.inl ht))
+    · exact Or.inr (Or.inr (Or.inr ht))
+  · intro h hall
+    rcases h with h | h | h | h <;> exact hall _ h (by simp)
 
 /-- SHA-1 integrity is refused exactly once any integrity or fingerprint is present (builders
     within the 16-bit size limit) -/
@@ -26,31 +41,68 @@ theorem sha1_refused_iff (H : Hashes) (hH : Spec.HashesOk H) (b : Builder) (hr :
     (c : Creds) (hs : b.byteLen + 24 ≤ 65535 + 20) :
     (∃ e, b.addIntegrity H c .sha1 = .error e) ↔
       (tyMI ∈ b.types ∨ tyMI256 ∈ b.types ∨ tyFP ∈ b.types) := by
-  sorry
+  rw [addIntegrity_err_iff H b c .sha1
+    (bytesWithExtraLen_some b (reach_ok H hH b hr) 24 hs)]
+  simp only [integrityBlockers, List.mem_cons, List.not_mem_nil, or_false]
+  constructor
+  · rintro ⟨t, ht, rfl | rfl | rfl⟩
+    · exact Or.inl ht
+    · exact Or.inr (Or.inl ht)
+    · exact Or.inr (Or.inr ht)
+  · rintro (h | h | h)
+    · exact ⟨_, h, Or.inl rfl⟩
+    · exact ⟨_, h, Or.inr (Or.inl rfl)⟩
+    · exact ⟨_, h, Or.inr (Or.inr rfl)⟩
 
 /-- SHA-256 integrity is refused exactly once a SHA-256 integrity or fingerprint is present -/
 theorem sha256_refused_iff (H : Hashes) (hH : Spec.HashesOk H) (b : Builder) (hr : Spec.Reach H b)
     (c : Creds) (hs : b.byteLen + 36 ≤ 65535 + 20) :
     (∃ e, b.addIntegrity H c .sha256 = .error e) ↔ (tyMI256 ∈ b.types ∨ tyFP ∈ b.types) := by
-  sorry
+  rw [addIntegrity_err_iff H b c .sha256
+    (bytesWithExtraLen_some b (reach_ok H hH b hr) 36 hs)]
+  simp only [integrityBlockers, List.mem_cons, List.not_mem_nil, or_false]
+  constructor
+  · rintro ⟨t, ht, rfl | rfl⟩
+    · exact Or.inl ht
+    · exact Or.inr ht
+  · rintro (h | h)
+    · exact ⟨_, h, Or.inl rfl⟩
+    · exact ⟨_, h, Or.inr rfl⟩
 
 /-- a second fingerprint is refused, a first one is not -/
 theorem fp_refused_iff (H : Hashes) (hH : Spec.HashesOk H) (b : Builder) (hr : Spec.Reach H b)
     (hs : b.byteLen + 8 ≤ 65535 + 20) :
     (∃ e, b.addFingerprint = .error e) ↔ tyFP ∈ b.types := by
-  sorry
+  exact addFingerprint_err_iff b (bytesWithExtraLen_some b (reach_ok H hH b hr) 8 hs)
 
 /-- a refused operation leaves the builder exactly as it was -/
 theorem refused_unchanged (H : Hashes) (b : Builder) (op : Spec.BOp)
     (h : (Spec.applyOp H b op).2 = false) : (Spec.applyOp H b op).1 = b := by
-  sorry
+  cases op with
+  | add a =>
+    simp only [Spec.applyOp] at h ⊢
+    cases hh : b.add a with
+    | ok b' => rw [hh] at h; cases h
+    | error e => rfl
+  | integrity c algo =>
+    simp only [Spec.applyOp] at h ⊢
+    cases hh : b.addIntegrity H c algo with
+    | ok b' => rw [hh] at h; cases h
+    | error e => rfl
+  | fingerprint =>
+    simp only [Spec.applyOp] at h ⊢
+    cases hh : b.addFingerprint with
+    | ok b' => rw [hh] at h; cases h
+    | error e => rfl
+  | intoOwned => simp [Spec.applyOp] at h
+  | clone => rfl
 
 /-- any operation sequence (any length, refused operations included) from a fresh builder stays
     within the reachable states -/
 theorem runOps_reach (H : Hashes) (ty tid : Nat) (hty : ty < 0x4000) (htid : tid < 2 ^ 96)
     (ops : List Spec.BOp) (hops : ∀ op ∈ ops, Spec.opAddable op) :
     Spec.Reach H (Spec.runOps H (Builder.new ty tid) ops) := by
-  sorry
+  exact runOps_reach_of H ops _ (Spec.Reach.new ty tid hty htid) hops
 
 /-- after any sequence the builder's own attribute queries agree with what it serialises … -/
 theorem queries_agree (H : Hashes) (hH : Spec.HashesOk H) (b : Builder) (hr : Spec.Reach H b)
@@ -65,7 +117,7 @@ theorem tail_shape (H : Hashes) (b : Builder) (hr : Spec.Reach H b) :
     ∃ pre tail, b.types = pre ++ tail ∧ (∀ t ∈ pre, Spec.isEnding t = false) ∧
       tail ∈ [[], [tyMI], [tyMI256], [tyMI, tyMI256], [tyFP], [tyMI, tyFP], [tyMI256, tyFP],
               [tyMI, tyMI256, tyFP]] := by
-  sorry
+  exact reach_tailShape H b hr
 
 example (H : Hashes) : (Spec.applyOp H (Builder.new 1 5) .fingerprint).2 = true := by
   simp [Spec.applyOp, Builder.addFingerprint, Builder.hasAttribute, Builder.new,
